@@ -1054,10 +1054,12 @@ func (g *GoFakeS3) completeMultipartUpload(bucket, object string, uploadID Uploa
 		// The bucket was taken from the Host (every request with
 		// WithHostBucket, hosts of the form <bucket>.<base> with a list of
 		// bases): the Location names the object the same way.
-		location = fmt.Sprintf("%s://%s/%s", protocol, r.Host, object)
+		location = (&url.URL{Scheme: protocol, Host: r.Host, Path: "/" + object}).String()
 	} else {
-		location = fmt.Sprintf("%s://%s/%s/%s", protocol, r.Host, bucket, object)
+		location = (&url.URL{Scheme: protocol, Host: r.Host, Path: "/" + bucket + "/" + object}).String()
 	}
+	// (url.URL escapes the key: pasted in as it is, a '?', '#' or '%' in it
+	// would make the Location the address of a different key)
 
 	return g.xmlEncoder(w).Encode(&CompleteMultipartUploadResult{
 		ETag:     etag,
